@@ -51,11 +51,11 @@ for _d, _sites in (("int", ALL_TSITES[:9]), ("float", ALL_TSITES[9:12]), ("str",
 
 def V(names=("p", "q", "r"), stages=(0, 1), reps=("none", "n2", "vs"), aggs=(True, False), spell=("rel", "abs"), paths=("",),
       methods=("ref",), styles=("same",), comps=3, refs=2, faults=ALL_FAULTS, package=8, tsites=FEW_TSITES, tclasses=FEW_TCLASSES,
-      sv0=(0,), sv1=(2,), mst=(0,), primitive=0, fixed=True):
+      sv0=(0,), sv1=(2,), mst=(0,), primitive=0, fixed=True, appdep=False):
     """package / primitive: every k-th mutant is ALSO loaded as a package directory / with graphFromFlowIR(primitive=True)"""
     return dict(names=names, stages=stages, reps=reps, aggs=aggs, spell=spell, paths=paths, methods=methods, styles=styles,
                 comps=comps, refs=refs, faults=faults, package=package, tsites=tsites, tclasses=tclasses,
-                sv0=sv0, sv1=sv1, mst=mst, primitive=primitive, fixed=fixed)
+                sv0=sv0, sv1=sv1, mst=mst, primitive=primitive, fixed=fixed, appdep=appdep)
 
 
 SLICES = {
@@ -76,6 +76,10 @@ SLICES = {
         # Loaded with primitive=False and primitive=True.
         "varscope": V(names=("p", "q"), reps=("none", "vs"), aggs=(False,), spell=("abs",), comps=2, refs=1, faults=["none", "var"],
                       sv0=(0, 2), sv1=(0, 2), mst=(0, 1, 2), package=4, primitive=1),
+        # loaded for platform "other", which declares NO application dependencies while the default platform declares one that is
+        # named like the first component (p.application): on "other" `p:ref` is a reference to the component p
+        "appdep": V(stages=(0,), reps=("none", "n2"), aggs=(False,), spell=("rel",), faults=["none", "drop", "rename", "cycle", "dup"],
+                    package=0, primitive=1, appdep=True),
         # the whole type matrix: every typed option site x every class of value, on small bases
         "types": V(names=("p", "q"), stages=(0,), reps=("none", "n2"), spell=("rel",), comps=2, refs=1, faults=["type"],
                    tsites=ALL_TSITES, tclasses=ALL_TCLASSES, package=8),
@@ -89,6 +93,8 @@ SLICES = {
                       sv0=(0, 2), sv1=(0, 2), mst=(0, 1, 2), package=8, primitive=2),
         "samename": V(names=("a", "c"), fixed=False, reps=("none", "n2"), aggs=(False,), spell=("rel", "abs"), refs=2,
                       faults=["none", "drop", "rename", "restage"], package=16, primitive=1),
+        "appdep": V(reps=("none", "n2"), spell=("rel", "abs"), faults=["none", "drop", "rename", "restage", "cycle", "dup"],
+                    package=0, primitive=1, appdep=True),
         "types": V(names=("p", "q"), reps=("none", "n2", "vg"), spell=("rel", "abs"), comps=2, refs=1, faults=["type"],
                    tsites=ALL_TSITES, tclasses=ALL_TCLASSES, package=4),
         "four": V(names=("p", "q", "r", "s"), stages=(0,), reps=("none", "n2"), aggs=(False,), spell=("rel",), comps=4,
@@ -104,7 +110,7 @@ MODEL = {
 def write_cfg(path, sl, emit, invariants):
     body = ("CONSTANTS\n  Names = %s\n  Stages = %s\n  RepChoices = %s\n  AggChoices = %s\n  Spellings = %s\n  Paths = %s\n"
             "  Methods = %s\n  ArgStyles = %s\n  DocOrders = {\"fwd\"}\n  MaxComps = %d\n  MaxRefs = %d\n  FixedNames = %s\n"
-            "  Emit = FALSE\n  PrivChoices = {0}\n  AggVarChoices = {FALSE}\n  StageVals0 = %s\n  StageVals1 = %s\n  MaxSame = 1\n"
+            "  Emit = FALSE\n  OvrPrivChoices = {0}\n  PrivChoices = {0}\n  AggVarChoices = {FALSE}\n  StageVals0 = %s\n  StageVals1 = %s\n  MaxSame = 1\n"
             "  Platforms = {0}\n  PlatGlobalVals = {0}\n  PlatStageVals0 = {0}\n  PlatStageVals1 = {0}\n  MsgStageVals = %s\n"
             "  FaultKinds = %s\n  EmitV = %s\n  TypeSitesC = %s\n  TypeClassesC = %s\nINIT InitV\nNEXT NextV\n%sCHECK_DEADLOCK FALSE\n" % (
                 _set(sl["names"]), _set(sl["stages"]), _set(sl["reps"]), _set(sl["aggs"]), _set(sl["spell"]), _set(sl["paths"]),
@@ -124,7 +130,7 @@ def classify(case):
         return "validate:type:%s-for-%s%s" % (f["cls"], d, (":" + f["site"]) if f["site"] in ("replicate", "stage", "backend") else "")
     if f["kind"] in ("key", "var"):
         return "validate:%s:%s" % (f["kind"], f["site"])
-    return "validate:%s" % f["kind"]
+    return "validate:%s%s" % (f["kind"], ":component-named-like-application-dependency" if case.get("appdep") else "")
 
 
 def judge(case, res, path):
@@ -149,12 +155,14 @@ def judge(case, res, path):
 
 
 def case_id(case):
-    return json.dumps([case["comps"], sorted(case["gvars"])], sort_keys=True)
+    return json.dumps([case["comps"], sorted(case["gvars"]), case.get("sv"), case.get("appdep")], sort_keys=True)
 
 
-def check_cases(chk, cases, package_every, procs, label="", primitive_every=0):
+def check_cases(chk, cases, package_every, procs, label="", primitive_every=0, appdep=False):
     work = []
     for i, case in enumerate(cases):
+        if appdep and case["comps"]:
+            case["appdep"] = case["comps"][0]["n"]
         paths = ("graph", "package") if package_every and i % package_every == 0 else ("graph",)
         if primitive_every and i % primitive_every == 0 and case["fault"]["kind"] in PRIMITIVE_KINDS:
             paths += ("primitive",)
@@ -221,7 +229,7 @@ def run(tier):
             k = (c["fault"]["kind"], c["valid"])
             seen[k] = seen.get(k, 0) + 1
         chk.add_tlc(r)
-        check_cases(chk, cases, sl["package"], procs, label=name, primitive_every=sl["primitive"])
+        check_cases(chk, cases, sl["package"], procs, label=name, primitive_every=sl["primitive"], appdep=sl["appdep"])
     threads[0].join()
     if errors:
         raise errors[0][1]
